@@ -373,10 +373,10 @@ def run_case(spec, work):
     try:
         stats_for(ref, stats, tmp)
     except Exception:
-        return {'violations': [], 'counters': {},
-                'inconclusive': 'statistics stage raised: '
-                + traceback.format_exc()[-300:],
-                'features': None, 'nontrivial': False}
+        return {'violations': [{
+                    'sig': 'C11:statistics-stage-raised-on-valid-input',
+                    'msg': traceback.format_exc()[-600:]}],
+                'counters': {}, 'features': ['raised'], 'nontrivial': True}
     V = gen.log2cpm(X)
     lab = np.array(labels)
     orc = {}
